@@ -198,6 +198,11 @@ func (v *collator_[V]) compareMaps(first ref.Value, second ref.Value) bool {
 }
 
 func (v *collator_[V]) compareIntrinsics(first, second ref.Value) bool {
+	switch first.Kind() {
+	case ref.Float32, ref.Float64, ref.Complex64, ref.Complex128:
+		// Not-a-number values must compare consistently with their ranking.
+		return v.rankIntrinsics(first, second) == EqualRank
+	}
 	return first.Interface() == second.Interface()
 }
 
@@ -398,6 +403,19 @@ func (v *collator_[V]) rankBytes(first, second byte) Rank {
 }
 
 func (v *collator_[V]) rankComplex(first, second complex128) Rank {
+	var firstNaN = cmp.IsNaN(first)
+	var secondNaN = cmp.IsNaN(second)
+	switch {
+	case firstNaN && secondNaN:
+		return v.rankParts(first, second)
+	case firstNaN:
+		return LesserRank // Not-a-number values rank before all numbers.
+	case secondNaN:
+		return GreaterRank
+	}
+	// The sign of a zero imaginary part must not influence the phase.
+	first = complex(real(first), imag(first)+0)
+	second = complex(real(second), imag(second)+0)
 	if first == second {
 		return EqualRank
 	}
@@ -418,13 +436,23 @@ func (v *collator_[V]) rankComplex(first, second complex128) Rank {
 			// The phase of the first vector is greater than the second.
 			return GreaterRank
 		default:
-			// The phases of the vectors are also equal.
-			return EqualRank
+			// The phases of the vectors are also equal (infinite magnitudes).
+			return v.rankParts(first, second)
 		}
 	}
 }
 
 func (v *collator_[V]) rankFloats(first, second float64) Rank {
+	var firstNaN = first != first
+	var secondNaN = second != second
+	switch {
+	case firstNaN && secondNaN:
+		return EqualRank
+	case firstNaN:
+		return LesserRank // Not-a-number values rank before all numbers.
+	case secondNaN:
+		return GreaterRank
+	}
 	if first < second {
 		return LesserRank
 	}
@@ -432,6 +460,14 @@ func (v *collator_[V]) rankFloats(first, second float64) Rank {
 		return GreaterRank
 	}
 	return EqualRank
+}
+
+func (v *collator_[V]) rankParts(first, second complex128) Rank {
+	var rank = v.rankFloats(real(first), real(second))
+	if rank == EqualRank {
+		rank = v.rankFloats(imag(first), imag(second))
+	}
+	return rank
 }
 
 func (v *collator_[V]) resetDepth() {
